@@ -171,6 +171,10 @@ PermEq(a, b) ==
   /\ (IF a.k = "c" THEN VEq(a.v, b.v) ELSE a.v = b.v)
   /\ Len(a.kids) = Len(b.kids)
   /\ IF IsBoolOp(a)
-     THEN \E pi \in Perms(Len(a.kids)) : \A i \in 1..Len(a.kids) : PermEq(a.kids[i], b.kids[pi[i]])
+     THEN \* same multiset of operands up to PermEq (an equivalence): every operand occurs
+          \* equally often on both sides (no enumeration of permutations)
+          \A i \in 1..Len(a.kids) :
+             Cardinality({p \in 1..Len(a.kids) : PermEq(a.kids[p], a.kids[i])}) =
+             Cardinality({q \in 1..Len(b.kids) : PermEq(b.kids[q], a.kids[i])})
      ELSE \A i \in 1..Len(a.kids) : PermEq(a.kids[i], b.kids[i])
 =============================================================================
